@@ -330,6 +330,12 @@ fn decode(mut i: u64, max_len: usize) -> Case {
 pub fn run(ctx: &Ctx) -> i32 {
     let started = Instant::now();
     if let Some(p) = &ctx.replay {
+        // a saved case of the composed tower segment is a history, not an index sequence
+        let is_history = std::fs::read_to_string(p).ok().and_then(|t| serde_json::from_str::<serde_json::Value>(&t).ok()).map_or(false, |v| serde_json::from_value::<crate::ops::History>(v["case"].clone()).is_ok());
+        if is_history {
+            let (c, _, _, _) = crate::props::tower::campaign("C04").unwrap();
+            return runner::replay(&c, p);
+        }
         return runner::replay(&C19, p);
     }
     let max_len = if ctx.thorough() { 7 } else { 5 };
@@ -351,14 +357,25 @@ pub fn run(ctx: &Ctx) -> i32 {
         let s2 = runner::run_campaign(&C19, ctx, if ctx.thorough() { 5000 } else { 200 });
         stats.merge(s2);
     }
+    // composed segment: the indexes as the Watcher and the Responder use them (they must be told about every
+    // connection and disconnection): chain-heavy histories on the real tower against the reference model
+    let mut tower_cases = 0u64;
+    if stats.failures.is_empty() {
+        let (c, _, _, _) = crate::props::tower::campaign("C04").unwrap();
+        let s3 = runner::run_campaign(&c, ctx, if ctx.thorough() { 1500 } else { 150 });
+        tower_cases = s3.evaluations;
+        stats.merge(s3);
+    }
     let mut ev = Evidence::default();
     ev.level = "exploration".into();
+    ev.extra.insert("composed_tower_histories".into(), json!(tower_cases));
     ev.rule = format!(
         "exhaustive: every sequence of length <= {max_len} over {{connect(any subset of 3 keys), disconnect}} for index sizes N=1,2,3 \
          ({exhaustive_n} sequences); random: proptest sequences of length < 60 over 5 keys for N=2,6,100 with real blocks. After every step \
          get() of every key and get_height() of every block ever created are compared with a list-of-blocks specification, for both \
          instantiations (txid->block hash, locator->transaction). Non-trivial = the sequence connects after a disconnect or evicts a block that had keys; \
-         distinct = distinct effective operation lists."
+         distinct = distinct effective operation lists. Composed segment: {tower_cases} chain-profile histories (many mine / reorg / poll, penalties confirmed in blocks that are \
+         reorged out) on the real tower, whose Watcher and Responder own the two indexes, judged by the reference model (violations carry the owning property's id, C01/C04)."
     );
     ev.exhaustive = Some(false);
     ev.extra.insert("exhaustive_small_scope_sequences".into(), json!(exhaustive_n));
